@@ -721,6 +721,12 @@ class Enum(MetricWrapperBase):
                  _labelvalues: Optional[Sequence[str]] = None,
                  states: Optional[Sequence[str]] = None,
                  ):
+        # Validate before the base constructor runs: it registers the metric, and a rejected
+        # constructor call must not leave a half-initialised collector in the registry.
+        if name in labelnames:
+            raise ValueError(f'Overlapping labels for Enum metric: {name}')
+        if not states:
+            raise ValueError(f'No states provided for Enum metric: {name}')
         super().__init__(
             name=name,
             documentation=documentation,
@@ -731,10 +737,6 @@ class Enum(MetricWrapperBase):
             registry=registry,
             _labelvalues=_labelvalues,
         )
-        if name in labelnames:
-            raise ValueError(f'Overlapping labels for Enum metric: {name}')
-        if not states:
-            raise ValueError(f'No states provided for Enum metric: {name}')
         # Copy: later changes to the caller's sequence must not alter the metric or its children.
         self._kwargs['states'] = self._states = list(states)
 
